@@ -95,8 +95,13 @@ def _hand_flp(cfg, rc):
     bound = math.sqrt(2.0)
     # the distance matrix is part of the instance: road-network style data (Manhattan, detour factor) whose matrix
     # is not the Euclidean matrix of the coordinates
-    metric = rc.choice(["euclid", "euclid", "manhattan", "detour"])
-    if metric == "manhattan":
+    metric = rc.choice(["euclid", "euclid", "manhattan", "detour", "oneway"])
+    if metric == "oneway":
+        # asymmetric service costs (row a = cost of serving the others FROM a, as `_get_reward` reads the
+        # matrix): going to a higher index costs 1.5 times the distance, so D[a][j] != D[j][a]
+        idx = torch.arange(n)
+        dm = torch.where(idx[:, None] < idx[None, :], dm * 1.5, dm)
+    elif metric == "manhattan":
         dm = (locs[:, None, :] - locs[None, :, :]).abs().sum(-1)
     elif metric == "detour":
         dm = dm * 1.5
